@@ -78,6 +78,7 @@ type outcome struct {
 	panicV  any
 	doc     []byte
 	skipped string
+	reloaded bool
 }
 
 type checker struct {
@@ -286,6 +287,10 @@ func (c *checker) exec(s spec) outcome {
 		o.err = e.Fn(in)
 	}()
 	wd.Stop()
+	o.reloaded = in.Reloaded
+	if he, ok := o.err.(*harnessErr); ok {
+		o.skipped, o.err = he.msg, nil
+	}
 	// a started command may still be finishing only if the loader did not wait for it; the loaders use
 	// Output()/Run(), so the file is there when the call returns.
 	if _, serr := os.Stat(canary); serr == nil {
@@ -318,7 +323,7 @@ func (c *checker) judge(s spec, o outcome, base map[string]string) {
 	res := c.res
 	field := s.Field
 	if o.skipped != "" {
-		res.CheckError("member %+v could not be built: %s", s, o.skipped)
+		res.CheckError("member %+v could not be built/run: %s", s, o.skipped)
 		return
 	}
 	detailDoc := vlib.Short(string(o.doc), 700)
@@ -348,6 +353,13 @@ func (c *checker) member(s spec) {
 	res.Evaluations++
 	res.Count("members:"+s.Entry, 1)
 	res.Nontrivial(vlib.Hash(s.Leaf, s.Tmpl, s.Payload, s.Profile, s.Entry))
+	if e := entryByName(s.Entry); e != nil && e.Hot && o.skipped == "" {
+		if o.reloaded {
+			res.Count("hot_reload_replaced_table_entry", 1)
+		} else {
+			res.Count("hot_reload_document_refused", 1) // the reader (or UpdateSpec) rejected the planted document
+		}
+	}
 	if s.Entry == entries[0].Name && s.Profile == "sparse" && o.err != nil {
 		res.Count("loader_rejects_planted_value:"+s.Field, 1) // not plantable in a form that still parses
 	}
@@ -381,6 +393,10 @@ func (c *checker) baselines() {
 				c.baseFull[e.Name] = o.delta
 			} else {
 				c.baseMin[e.Name] = o.delta
+			}
+			if e.Hot && o.skipped == "" && !o.reloaded {
+				// every shard checks that its watcher really reloads an (acceptable) delivered document
+				c.res.CheckError("%s: the reader's table entry was not replaced after delivering the unplanted %s document: the hot-reload path is not exercised", e.Name, prof)
 			}
 			c.n++
 			if !c.fl.Mine(c.n) {
@@ -573,6 +589,9 @@ func main() {
 				for _, prof := range profiles {
 					nDocs++
 					for _, e := range entries {
+						if e.Hot && prof == "full" && !fl.Thorough() {
+							continue // quick tier: the watcher path gets the sparse documents only
+						}
 						c.member(spec{Kind: "member", Leaf: leafID(lf), Field: lf.Path, Tmpl: tmpl, Payload: p.Kind, Profile: prof, Entry: e.Name})
 					}
 				}
@@ -595,6 +614,9 @@ func main() {
 	res.Bounds["entry_points"] = len(entries)
 	res.Bounds["documents"] = nDocs
 	res.Bounds["profiles"] = profiles
+	if !fl.Thorough() {
+		res.Bounds["hot_reload_entry_points_profiles"] = []string{"sparse"}
+	}
 	var pk []string
 	for _, p := range payloads {
 		if p.Tier == "quick" || fl.Thorough() {
@@ -604,6 +626,7 @@ func main() {
 	res.Bounds["payloads"] = pk
 	res.Rule = "member = (string leaf of the definition found by reflection / listed shape of an `any` field, embedding template, canary payload, document profile, non-executing entry point); every member of the product is executed on the real code; distinct = distinct tuple; all are non-trivial: the payload is checked (through the loader's own decode) to sit in exactly the intended leaf"
 	res.Assume("a command contained in the definition is observed through the file it creates (touch <canary>); commands are started synchronously by the loaders (exec.Cmd.Output), so the file exists when the entry point returns")
+	res.Assume("hot reload: the watcher is known to have processed the delivered document when a definition renamed into the directory afterwards shows up in the reader's table (one inotify watch delivers in order, one goroutine handles the events); zz_sync_N.yaml helper definitions are therefore added to the member's directory")
 	res.Assume("API handler operations are invoked through Handler.Configure on a bare operations.BlackdaggerAPI (no HTTP server, no authentication middleware)")
 	res.Write(fl.Out)
 }
